@@ -333,27 +333,49 @@ NAMED_CAPS = [
     ("eink_st_abz_betreuungskost_y", "eink_st_abzuege_params", ("kinderbetreuungskosten_abz_maximum",)),
     ("eink_st_altersfreib_y_bis_2004", "eink_st_abzuege_params", ("altersentlastungsbetrag_max",)),
     ("vorsorge_krankenv_option_a", "eink_st_abzuege_params", ("vorsorgepauschale_kv_max", "steuerklasse_3")),
+    # income considered for Elterngeld is capped: base amount <= cap x replacement rate (this is what bounds the
+    # sibling bonus, a share of the base amount); arguments listed last are non-negative by their own sign facts
+    ("elterngeld_basisbetrag_m", "elterngeld_params", ("max_zu_berücksichtigendes_einkommen",), "elterngeld_lohnersatzanteil",
+     ("elterngeld_anrechenbares_nettoeinkommen_m", "elterngeld_lohnersatzanteil")),
 ]
 
 
 def named_caps(ck):
     allf = gt.all_internal_functions()
-    for fname, parg, path in NAMED_CAPS:
+    for entry in NAMED_CAPS:
+        fname, parg, path = entry[:3]
+        times, nonneg = (entry[3] if len(entry) > 3 else None), (entry[4] if len(entry) > 4 else ())
         f = allf.get(fname)
-        if f is None or parg not in inspect.signature(f).parameters:
-            ck.add_inconclusive(f"named cap {fname} <= {'.'.join(map(str, path))}: rule or parameter argument no longer exists")
+        if f is None:
+            ck.add_inconclusive(f"named cap {fname} <= {'.'.join(map(str, path))}: the rule no longer exists")
             continue
         info = getattr(f, "__info__", {}) or {}
         lo = max(info["start_date"], datetime.date(1985, 1, 1)) if info.get("start_date") else datetime.date(1985, 1, 1)
-        for lab, kw in gt.param_variants(f, lo, info.get("end_date")):
-            P = {a[: -len("_params")]: v for a, v in kw.items()}
+        hi = info.get("end_date") or datetime.date.max
+        group = parg[: -len("_params")]
+        own = [a[: -len("_params")] for a in inspect.signature(f).parameters if a.endswith("_params")]
+        # one run per distinct value of the cap over time (whether or not the rule still reads the parameter: a rule
+        # that stopped reading its cap is exactly what must be caught)
+        dates = sorted({lo, *[d for g_ in {group, *own} for d in gt._group_dates(g_) if lo <= d <= hi]})
+        seen_caps = set()
+        for d in dates:
             try:
-                cap = P[parg[: -len("_params")]]
+                cap = gt._group_at(group, d)
                 for k in path:
                     cap = cap[k]
                 cap = float(cap)
-            except (KeyError, TypeError, ValueError):
-                continue          # the cap parameter is not in force with these parameters
+            except Exception:   # noqa: BLE001 -- the cap parameter is not in force at that date
+                continue
+            try:
+                P = {g_: gt._group_at(g_, d) for g_ in own}
+            except Exception:   # noqa: BLE001
+                continue
+            sig_ = (cap, repr([P[g_] for g_ in own]) if own else "")
+            if sig_ in seen_caps:
+                continue
+            seen_caps.add(sig_)
+            lab = str(d)
+            kw = {g_ + "_params": P[g_] for g_ in own}
             try:
                 kws, syms = gt.rule_args(f, P)
                 v, ctx = R.run(f, kwargs=kws)
@@ -366,7 +388,14 @@ def named_caps(ck):
             ck.functions |= ctx.funcs
             errs = [g for g, k_, w in ctx.errors]
             pre = validity.inputs(syms) + list(ctx.assumptions) + ([z3.Not(z3.Or(errs))] if errs else [])
-            r, m = ck.oblige(f"named cap {fname} <= {'.'.join(map(str, path))} @{lab}", pre + [t > R.const_real(cap) + EPS], 60,
+            pre += [R.term_of(syms[a], float) >= 0 for a in nonneg if a in syms]
+            bound = R.const_real(cap)
+            if times:
+                if times not in syms:
+                    ck.add_inconclusive(f"named cap {fname}@{lab}: argument {times} no longer exists")
+                    continue
+                bound = bound * R.term_of(syms[times], float)
+            r, m = ck.oblige(f"named cap {fname} <= {'.'.join(map(str, path))}{' x ' + times if times else ''} @{lab}", pre + [t > bound + EPS], 60,
                              sample={"rule": fname, "cap_parameter": ".".join(map(str, path)), "value": cap, "parameters_in_force_at": lab})
             ck.nontrivial.add(("named-cap", fname, cap))
             if r == "sat":
@@ -375,9 +404,10 @@ def named_caps(ck):
                     out = float(f(**row, **kw))
                 except Exception as e:   # noqa: BLE001
                     out = None
-                what = f"{fname} = {out} exceeds the cap {'.'.join(map(str, path))} = {cap} (parameters of {lab}) for {row}"
-                if out is not None and out > cap + 5e-7:
-                    ck.violation(["named-cap", fname], what, {"kind": "named-cap", "fname": fname, "variant": lab, "row": row, "cap": cap})
+                capv = cap * (float(row[times]) if times else 1.0)
+                what = f"{fname} = {out} exceeds the cap {'.'.join(map(str, path))}{' x ' + times if times else ''} = {capv} (parameters of {lab}) for {row}"
+                if out is not None and out > capv + 5e-7:
+                    ck.violation(["named-cap", fname], what, {"kind": "named-cap", "fname": fname, "variant": lab, "row": row, "cap": capv})
                 else:
                     common.spurious("C16", what)
 
@@ -409,7 +439,8 @@ def replay(path):
     from gsv.checks import c08
     if d["kind"] == "named-cap":
         f = gt.all_internal_functions()[d["fname"]]
-        kw = dict(gt.param_variants(f))[d["variant"]] if d.get("variant") else {}
+        dt = datetime.date.fromisoformat(d["variant"])
+        kw = {a: gt._group_at(a[: -len("_params")], dt) for a in inspect.signature(f).parameters if a.endswith("_params")}
         out = float(f(**d["row"], **kw))
         print(out, "cap", d["cap"])
         return 1 if out > d["cap"] + 5e-7 else 0
